@@ -43,7 +43,7 @@ Inductive op :=
 | OEnq (it : item)            (* p.Enqueue(it) *)
 | ODeq (k : Z)                (* p.Dequeue(k) *)
 | OAdv (t : Z)                (* the injected clock is set to t (never backwards) *)
-| OClose                      (* p.Close() is called (in its own goroutine) *)
+| OClose                      (* p.Close() is called (in its own goroutine); may be called any number of times *)
 | OGates (gn gt gc : bool)    (* test seam: hold the loop at Now() / NewTimer() / in the callback *)
 | ORelease.                   (* test seam: let a held loop go on *)
 
@@ -54,8 +54,9 @@ Inductive sstep := SOp (o : op) | SRace (t : Z) (o : op).
 (* what was observed when everything had come to rest after the step:
    callbacks started during the step (item id, injected-clock time), in order;
    where the loop goroutine is: 0 none, 1 held at Now(), 2 held at NewTimer(), 3 parked on its
-   timer, 4 inside a held callback; the timer's deadline (pos 3); whether Close has returned *)
-Record obs := mkObs { o_execs : list (Z * Z); o_pos : Z; o_dl : Z; o_closed : bool }.
+   timer, 4 inside a held callback; the timer's deadline (pos 3); how many of the Close calls made
+   so far have returned *)
+Record obs := mkObs { o_execs : list (Z * Z); o_pos : Z; o_dl : Z; o_closed : Z }.
 
 Definition hist := list (sstep * obs).
 
@@ -172,10 +173,18 @@ Definition sp_on_time (c0 : Z) (h : hist) : Prop :=
     idue it <= clock_at c0 h j ->
     exists e, In e (execs_of h) /\ x_id e = iid it /\ (x_step e <= j)%nat.
 
-(* once Close has returned no callback is running or will run *)
+(* how many Close calls were made in steps 0..j *)
+Definition is_close (x : sstep) : bool := match op_of x with OClose => true | _ => false end.
+Definition closes_upto (h : hist) (j : nat) : Z :=
+  Z.of_nat (length (filter (fun so : sstep * obs => is_close (fst so)) (firstn (S j) h))).
+
+(* once a Close call - any of them - has returned no callback is running or will run; and Close
+   "blocks until the processor loop returns", no longer: when no loop goroutine is left every Close
+   call made so far has returned *)
 Definition sp_close (h : hist) : Prop :=
-  forall j x o, nth_error h j = Some (x, o) -> o_closed o = true ->
-    o_pos o = 0 /\ forall e, In e (execs_of h) -> (x_step e <= j)%nat.
+  forall j x o, nth_error h j = Some (x, o) ->
+    (0 < o_closed o -> o_pos o = 0 /\ forall e, In e (execs_of h) -> (x_step e <= j)%nat) /\
+    (o_pos o = 0 -> o_closed o = closes_upto h j).
 
 Definition spec (c0 : Z) (h : hist) : Prop :=
   sp_once h /\ sp_not_early h /\ sp_in_order h /\ sp_removed h /\ sp_on_time c0 h /\ sp_close h.
@@ -245,9 +254,10 @@ Definition or_on_time (c0 : Z) (h : hist) : bool :=
 
 Definition or_close (h : hist) : bool :=
   forallb (fun jso : nat * (sstep * obs) =>
-     implb (o_closed (snd (snd jso)))
+     implb (0 <? o_closed (snd (snd jso)))
            ((o_pos (snd (snd jso)) =? 0) &&
-            forallb (fun e => (x_step e <=? fst jso)%nat) (execs_of h)))
+            forallb (fun e => (x_step e <=? fst jso)%nat) (execs_of h)) &&
+     implb (o_pos (snd (snd jso)) =? 0) (o_closed (snd (snd jso)) =? closes_upto h (fst jso)))
     (steps_ix h).
 
 Definition oracle (c0 : Z) (h : hist) : bool :=
